@@ -332,6 +332,104 @@ def stepA (C : Cfg) (s : St) (dt : Rat) (cm : Comm) : St :=
   (ns.filter (fun n => isMg C n)).foldl (fun s n => mgLoopA C s n dt cm) s2
 
 
+/-! ### ICT-based control with sensors / intelligent switches that have failed by themselves
+
+A sensor that is FAILED when the controller polls it is brought back by a new signal / a reboot (costing `sensExtra`
+hours, added to the sectioning time whether or not the section is faulted) or goes to manual repair; a sensor under
+repair reports its line as failed (`sensRepair`: a false alarm keeps the section out of service until the sensor is
+back).  An intelligent switch that is FAILED when its opening time is asked for is sent to manual repair and costs the
+manual sectioning time once (`swFailed`, cleared by the first poll of the increment).  What each device will answer in
+an increment is an input, as is reachability; with no device in trouble these loops are the loops of `stepA`
+(`Lemmas`: `stepD_healthy`). -/
+
+structure CommD where
+  cm : Comm
+  sensExtra : List Rat     -- per line: hours a reachable sensor needs before it answers (0 unless FAILED)
+  sensRepair : List Bool   -- per line: the sensor is under manual repair and reports "failed"
+  recheck : List Bool      -- per network: a sensor of the network came back from repair in this increment (its controller polls again)
+deriving Repr, Inhabited
+
+/-- hours spent on getting answers from the reachable sensors of section `k` -/
+def sensSum (C : Cfg) (cd : CommD) (k : Nat) : Rat :=
+  ((C.secs.getD k default).lines.filter (fun l => gb cd.cm.sensor l)).foldl (fun a l => a + gr cd.sensExtra l) 0
+
+/-- what the controller concludes for section `k`: some line failed, or a reachable sensor under repair says so -/
+def reportedFail (C : Cfg) (s : St) (cd : CommD) (k : Nat) : Bool :=
+  (C.secs.getD k default).lines.any (fun l => gb s.failed l || (gb cd.cm.sensor l && gb cd.sensRepair l))
+
+/-- asking one switch of a section for its opening time: a reachable intelligent switch that is FAILED costs the manual
+sectioning time and goes to repair (cleared in `swF`) -/
+def swPoll (C : Cfg) (cd : CommD) (acc : Rat × List Bool) : Sw → Rat × List Bool
+  | .discon d => if gb cd.cm.iswitch d && gb acc.2 d then (acc.1 + C.T, acc.2.set d false) else acc
+  | .breaker _ => acc
+
+/-- Section.get_disconnect_time with switches that may be FAILED (`swF`, cleared when polled) -/
+def disconnectTimeD (C : Cfg) (cd : CommD) (swF : List Bool) (k : Nat) : Rat × List Bool :=
+  let r := (C.secs.getD k default).switches.foldl (swPoll C cd) ((0 : Rat), swF)
+  (r.1 + (if needSw C cd.cm k then C.T else 0), r.2)
+
+/-- flagging step of `check_sensors` with devices in trouble -/
+def flagStepD (C : Cfg) (n : Nat) (cd : CommD) (acc : St × List Bool) (k : Nat) : St × List Bool :=
+  let s := acc.1
+  let sc := C.secs.getD k default
+  let tm := s.timer.set n (gr s.timer n + sensSum C cd k)          -- every reachable sensor of the section has been asked
+  if reportedFail C s cd k then
+    let dt := disconnectTimeD C cd acc.2 k
+    let t := (if needSens C cd.cm k then C.T else 0) + dt.1
+    let s' := { s with secConn := s.secConn.set k false,
+                       failedSecs := s.failedSecs.set n (addUnique (s.failedSecs.getD n []) k),
+                       timer := tm.set n (gr tm n + t) }
+    (sc.lines.foldl (fun s l => { s with rem := s.rem.set l (gr s.rem l + dt.1) }) s', dt.2)
+  else ({ s with timer := tm }, acc.2)
+
+/-- reconnecting step of `check_sensors` with devices in trouble -/
+def recoStepD (C : Cfg) (n : Nat) (cd : CommD) (s : St) (k : Nat) : St :=
+  let s0 : St := { s with timer := s.timer.set n (gr s.timer n + sensSum C cd k) }
+  if reportedFail C s cd k then s0
+  else
+    let s' := secConnectManually C s0 k
+    { s' with failedSecs := s'.failedSecs.set n ((s'.failedSecs.getD n []).filter (· != k)) }
+
+def checkSensorsD (C : Cfg) (s : St) (n : Nat) (cd : CommD) (swF : List Bool) : St × List Bool :=
+  let nc := C.nets.getD n default
+  let connSecs := nc.secs.filter (fun k => gb s.secConn k)
+  let discSecs := nc.secs.filter (fun k => !gb s.secConn k)
+  let r1 := connSecs.foldl (flagStepD C n cd) (s, swF)
+  (discSecs.foldl (recoStepD C n cd) r1.1, r1.2)
+
+def distLoopD (C : Cfg) (s : St) (n : Nat) (dt : Rat) (cd : CommD) (swF : List Bool) : St × List Bool :=
+  let nc := C.nets.getD n default
+  let s1 := { s with timer := s.timer.set n (tick (gr s.timer n) dt) }
+  let s2 := if gb s1.cbOpen nc.cb && gr s1.timer n ≤ 0 then { s1 with check := s1.check.set n true } else s1
+  let r3 := if gb s2.check n then
+      let a := checkSensorsD C s2 n cd swF
+      let b := nc.children.foldl (fun s m =>
+        if gb s.cbOpen (C.nets.getD m default).cb then { s with pTimer := s.pTimer.set m (gr s.timer n) } else s) a.1
+      ({ b with check := b.check.set n false }, a.2)
+    else (s2, swF)
+  (checkBreakerManually C r3.1 n, r3.2)
+
+def mgLoopD (C : Cfg) (s : St) (n : Nat) (dt : Rat) (cd : CommD) (swF : List Bool) : St × List Bool :=
+  let nc := C.nets.getD n default
+  let t1 := tick (gr s.timer n) dt
+  let t2 := if gr s.pTimer n > t1 then gr s.pTimer n else t1
+  let s1 := { s with timer := s.timer.set n t2, pTimer := s.pTimer.set n (tick (gr s.pTimer n) dt) }
+  let s2 := if gb s1.cbOpen nc.cb && gr s1.timer n ≤ 0 then { s1 with check := s1.check.set n true } else s1
+  let r3 := if gb s2.check n then
+      let a := checkSensorsD C s2 n cd swF
+      ({ a.1 with check := a.1.check.set n false }, a.2)
+    else (s2, swF)
+  (checkBreakerManually C r3.1 n, r3.2)
+
+/-- one increment under ICT-based control with devices that may be in trouble (`swF`: intelligent switches FAILED now) -/
+def stepD (C : Cfg) (s : St) (dt : Rat) (cd : CommD) (swF : List Bool) : St :=
+  let s0 := (List.range C.lines.length).foldl (fun s l => lineUpdate C s l dt) s
+  let ns := List.range C.nets.length
+  -- Sensor.update_fail_status: back from repair => the controller of the line's network checks its components again
+  let s1 := { s0 with check := ns.foldl (fun c n => if gb cd.recheck n then c.set n true else c) s0.check }
+  let r2 := (ns.filter (fun n => !isMg C n)).foldl (fun (acc : St × List Bool) n => distLoopD C acc.1 n dt cd acc.2) (s1, swF)
+  ((ns.filter (fun n => isMg C n)).foldl (fun (acc : St × List Bool) n => mgLoopD C acc.1 n dt cd acc.2) r2).1
+
 /-- `MainController.spread_sectioning_time_to_sub_controllers` after a software failure of the main controller that
 took `S` hours to cure (new signal, reboot): every sub-controller whose breaker is open keeps the larger of its own
 sectioning time and `S`.  (Happens at the end of `update_fail_status`, before the control loops of the increment.) -/
